@@ -450,3 +450,103 @@ def c09_5(run):
     if not n_done:
         raise Inconclusive('vacuity')
     run.require_reached(*run.cur.reach)
+
+
+# ----------------------------------------------------------------------------------------------------------------- C09-6
+@obligation('C09', 'C09-6 verify_metadata (the task fan-out): a header blob reaches reconstruction only if BlobVerifier::verify_metadata returned it, it is not below the next expected firm height, and it is filed under its own block hash; a verified blob is lost only to a duplicate of the same hash')
+def c09_6(run):
+    import re
+    R = re.compile
+    cfg = {}
+
+    def h_into_parts(ctx):
+        return [(None, (z3.BitVec('celestia_height', 64), M.new_vec('Vec<SubmittedMetadata>', list(cfg['blobs'])), Obj('Vec<SubmittedRollupData>', kind='opaque')))]
+
+    def h_attr(name, ref=False):
+        def h(ctx):
+            o = ctx.ex.deref_val(ctx.st, ctx.args[0])
+            v = o.attrs[name]
+            return [(None, B.cell(v) if ref else v)]
+        return h
+
+    def h_jm_new(ctx):
+        o = Obj('JoinMap', kind='opaque'); o.attrs['tasks'] = []
+        return [(None, o)]
+
+    def h_spawn(ctx):
+        jm = ctx.ex.deref_val(ctx.st, ctx.args[0])
+        jm.attrs['tasks'] = jm.attrs['tasks'] + [(ctx.args[1], ctx.args[2])]
+        ctx.st.log.append(('spawn', ctx.ex.deref_val(ctx.st, ctx.args[2]).attrs.get('blob_idx')))
+        return [(None, ())]
+
+    def h_verify(ctx):
+        blob = ctx.ex.deref_val(ctx.st, ctx.args[1])
+        f = Obj('verify-future', kind='opaque'); f.attrs['blob_idx'] = blob.attrs['idx']; f.attrs['blob'] = blob
+        return [(None, f)]
+
+    def h_join_next(ctx):
+        def alts(ex, s2, fut):
+            jm = ex.deref_val(s2, s2.tr(fut.attrs['jm']))
+            if not jm.attrs['tasks']:
+                return [(None, none())]
+            key, vf = jm.attrs['tasks'][0]
+            vf = ex.deref_val(s2, vf); i = vf.attrs['blob_idx']
+            oc = z3.BitVec(f'verification_outcome_{i}', 8)       # 0 verified, 1 rejected (None), 2 task cancelled
+            s2.pc.append(z3.ULE(oc, 2))
+
+            def pop(s3):
+                j3 = ex.deref_val(s3, s3.tr(fut.attrs['jm'])); j3.attrs['tasks'] = j3.attrs['tasks'][1:]
+                k3, v3 = s3.tr(key), ex.deref_val(s3, s3.tr(vf))
+                return k3, v3
+            def verified(s3):
+                k3, v3 = pop(s3); return some((k3, ok(some(v3.attrs['blob']))))
+            def rejected(s3):
+                k3, v3 = pop(s3); return some((k3, ok(none())))
+            def cancelled(s3):
+                k3, v3 = pop(s3); return some((k3, err(Obj('JoinError', kind='error'))))
+            return [(oc == 0, verified), (oc == 1, rejected), (oc == 2, cancelled)]
+        return [(None, M.thunk_future(alts, jm=ctx.args[0]))]
+    hooks = [(R(r'ConvertedBlobs::into_parts$'), h_into_parts), (R(r'SubmittedMetadata::height$'), h_attr('height')), (R(r'SubmittedMetadata::block_hash$'), h_attr('block_hash', True)),
+             (R(r'next_expected_firm_sequencer_height$'), lambda ctx: [(None, z3.BitVec('next_expected_firm_height', 64))]),
+             (R(r'(^|::)Height::value$'), lambda ctx: [(None, ctx.ex.deref_val(ctx.st, ctx.args[0]))]),
+             (R(r'JoinMap::<.*>::new$|JoinMap::new$'), h_jm_new), (R(r'JoinMap::<.*>::spawn|JoinMap::spawn'), h_spawn), (R(r'JoinMap::<.*>::join_next$|JoinMap::join_next$'), h_join_next),
+             (R(r'BlobVerifier::verify_metadata$'), h_verify), (R(r'^<Arc<.*> as (std::clone::)?Clone>::clone$'), lambda ctx: [(None, ctx.ex.deref_val(ctx.st, ctx.args[0]))])]
+    ex = loader.load(['astria-conductor'], scalar_types=dict(SCALARS2, **{'sequencerblock::v1::block::Hash': 256, 'block::Hash': 256, 'astria_core::sequencerblock::v1::block::Hash': 256}), hooks=hooks, dep_adts=['tendermint'])
+    cands = [n for n in ex.fns if re.search(r'(^|::)verify_metadata$', n) and 'closure' not in n and 'impl at' not in n]
+    if len(cands) != 1:
+        raise Inconclusive(f'verify::verify_metadata not found: {cands}')
+    K = 2 if run.tier == 'quick' else 3
+    run.bound(blobs=f'0..{K} header blobs with symbolic heights and block hashes (equal hashes allowed)', tasks='tokio JoinMap as a FIFO list of tasks; each verification task ends verified / rejected / cancelled (oracle; its own logic is C09-3)')
+    n_paths = 0
+    for k in range(K + 1):
+        blobs = []
+        for i in range(k):
+            b = Obj('astria_core::sequencerblock::v1::SubmittedMetadata', kind='opaque'); b.attrs.update(idx=i, height=z3.BitVec(f'blob_height_{i}', 64), block_hash=z3.BitVec(f'blob_hash_{i}', 256))
+            blobs.append(b)
+        cfg['blobs'] = blobs
+        nxt = z3.BitVec('next_expected_firm_height', 64)
+        st = ex.start(cands[0], [Obj('Arc<BlobVerifier>', kind='arc'), Obj('ConvertedBlobs', kind='opaque'), Obj('StateReceiver', kind='opaque')])
+        for pi, p in enumerate(run.explore(ex, st, poll=True, allow_havoc=(r'^Arguments::|fmt::',))):
+            lab = f'[{k} blobs, path {pi}]'
+            if p.kind != 'return':
+                run.prove(f'no panic {lab}', p.pc, z3.BoolVal(False), detail=p.info); continue
+            n_paths += 1
+            res = ex.deref_val(p, p.result.fields[('Ready', 0)])
+            ents = ex.deref_val(p, B.fld(ex, p, res, 'header_blobs', 'HashMap')).attrs['items']
+            ocs = [z3.BitVec(f'verification_outcome_{i}', 8) for i in range(k)]
+            spawned = [e[1] for e in p.log if e[0] == 'spawn']
+            run.sample({'blobs': k, 'path': pi, 'kept': len(ents), 'spawned': spawned})
+            for kk, v in ents:
+                v = ex.deref_val(p, v); i = v.attrs['idx']
+                run.prove(f'a kept header blob was verified, is not below the next expected firm height, and is filed under its own block hash {lab}', p.pc,
+                          z3.And(z3.BoolVal(i in spawned), ocs[i] == 0, z3.UGE(v.attrs['height'], nxt), kk == v.attrs['block_hash']))
+            x = z3.BitVec('any_hash', 256)
+            for i in range(k):
+                b = blobs[i]
+                here = z3.Or(*[kk == b.attrs['block_hash'] for kk, _ in ents]) if ents else z3.BoolVal(False)
+                run.prove(f'a verified blob at or above the next expected height is kept, or another verified blob with the same hash is [{i}] {lab}', p.pc,
+                          z3.Implies(z3.And(z3.UGE(b.attrs['height'], nxt), z3.BoolVal(i in spawned), ocs[i] == 0 if i in spawned else z3.BoolVal(False)), here))
+                run.prove(f'verification is started exactly for the blobs at or above the next expected firm height [{i}] {lab}', p.pc, z3.UGE(b.attrs['height'], nxt) == z3.BoolVal(i in spawned))
+    if not n_paths:
+        raise Inconclusive('vacuity')
+    run.require_reached(*run.cur.reach)
